@@ -20,4 +20,4 @@ require (
 	gopkg.in/yaml.v3 v3.0.1 // indirect
 )
 
-replace github.com/named-data/ndnd => /tmp/dev/repo
+replace github.com/named-data/ndnd => /repo
